@@ -11,6 +11,7 @@ import (
 	"bufio"
 	"bytes"
 	"fmt"
+	"go/token"
 	"os"
 	"os/exec"
 	"regexp"
@@ -166,5 +167,39 @@ func paramDerivedReadOnly(p *Prog, fn *ssa.Function, base ssa.Value) bool {
 			writer = true
 		}
 	})
-	return !writer
+	if writer {
+		return false
+	}
+	// reader side means the function actually reads elements of the parameter
+	// (or hands it to a hslam/code decoder); a pure reslice of an output buffer
+	// is covered by R-RESLICE-GUARD (C07), not by this rule.
+	reads := false
+	eachInstr(fn, func(in ssa.Instruction) {
+		rootOf := func(v ssa.Value) ssa.Value {
+			for i := 0; i < 8; i++ {
+				v = p.canon(v)
+				if sl, ok := v.(*ssa.Slice); ok {
+					v = sl.X
+					continue
+				}
+				break
+			}
+			return v
+		}
+		switch x := in.(type) {
+		case *ssa.UnOp:
+			if ia, ok := x.X.(*ssa.IndexAddr); ok && x.Op == token.MUL && rootOf(ia.X) == ssa.Value(prm) {
+				reads = true
+			}
+		case *ssa.Index:
+			if rootOf(x.X) == ssa.Value(prm) {
+				reads = true
+			}
+		case *ssa.Call:
+			if strings.HasPrefix(calleeName(x), "code.Decode") && len(x.Call.Args) > 0 && rootOf(x.Call.Args[0]) == ssa.Value(prm) {
+				reads = true
+			}
+		}
+	})
+	return reads
 }
